@@ -421,6 +421,7 @@ struct MemWorld : World
           o.a[2] = (int64_t)r.below(10); // index type
           o.a[3] = r.chance(1, 4) ? (int64_t)r.below(300) : idx[r.below(sizeof(idx) / sizeof(idx[0]))];
           o.a[4] = (int64_t)r.below(3); // plain / tainted / in sandbox memory
+          o.a[5] = (int64_t)r.below(24); // (trap-MMU runs, index in sandbox memory) rewritten at the k-th access with one of 6 hostile values
           break;
         }
         case P_NESTED:
@@ -513,6 +514,24 @@ struct MemWorld : World
   }
   int pick_sbx(int64_t sel) { return (int)((uint64_t)sel % S.size()); }
 
+  // F2 on an integer operand that lives in sandbox memory: the guest overwrites it at RLBox's k-th access to the region
+  struct OperandFault
+  {
+    uint64_t k = 0; // 0: none
+    int64_t value = 0;
+    uint8_t* gcell = nullptr;
+    size_t width = 0;
+    bool fired = false;
+  };
+  OperandFault operand_fault;
+  static void operand_hook(uint64_t k, uint32_t, bool, void* ud)
+  {
+    auto* f = (OperandFault*)ud;
+    if (!f->fired && k == f->k) {
+      memcpy(f->gcell, &f->value, f->width); // little endian: the low bytes of the value
+      f->fired = true;
+    }
+  }
   template<class N, class F>
   void with_wrap(int s, int wrap, int64_t v, F&& f)
   {
@@ -527,7 +546,27 @@ struct MemWorld : World
       auto cell = rlbox::sandbox_reinterpret_cast<N*>(S[(size_t)s].scratch);
       *cell = nv; // may abort when not representable in the guest type
       C->probe("operand_in_sandbox_memory");
-      f(*cell);
+      if (Sbx::cfg.mmu && operand_fault.k != 0) {
+        SbxState& st = S[(size_t)s];
+        operand_fault.gcell = st.impl()->gptr((uint32_t)((uintptr_t)st.scratch.UNSAFE_unverified() - st.base()));
+        operand_fault.width = sizeof(rlbox::detail::convert_to_sandbox_equivalent_t<N, Sbx>);
+        operand_fault.fired = false;
+        mmu::arm(st.impl()->mem.base, st.size(), operand_hook, &operand_fault);
+        struct Disarm
+        {
+          MemWorld* w;
+          ~Disarm()
+          {
+            w->C->st.steps += mmu::g.count;
+            mmu::disarm();
+            if (w->operand_fault.fired)
+              w->C->fired("F2_integer_operand_rewritten_between_accesses");
+            w->operand_fault.k = 0;
+          }
+        } disarm{ this };
+        f(*cell);
+      } else
+        f(*cell);
     }
   }
   template<class NV>
@@ -2312,6 +2351,10 @@ struct MemWorld : World
     int wrap = (int)((uint64_t)op.a[4] % 3);
     if (nt <= 4)
       C->probe("static_array_indexed_with_narrow_integer_type");
+    // an index that lives in sandbox memory may change between two reads of it
+    static const int64_t kHostile[] = { 1LL << 24, -3, 300, 66001, 70000, 0x7fffffff };
+    operand_fault.k = (uint64_t)op.a[5] % 4;
+    operand_fault.value = kHostile[((uint64_t)op.a[5] / 4) % 6];
     Outcome o = attempt([&] {
       if (big) {
         auto tp = st.sb->UNSAFE_accept_pointer(reinterpret_cast<SimBig*>(at));
@@ -2321,6 +2364,7 @@ struct MemWorld : World
         with_index_type(s, nt, wrap, op.a[3], [&](auto& i) { push<int>(s, &tp->tbl[i], "table_index"); });
       }
     });
+    operand_fault.k = 0;
     C->ev("table_index big=%d place=%d type=%d wrap=%d i=%lld -> %s", (int)big, place, nt, wrap, (long long)op.a[3], oname(o));
   }
 
